@@ -14,7 +14,7 @@
      rect_fits r             extents and far edges of r fit i32 (Rectangle::points does not saturate);
                              implied by rect_ok (|coordinates|, extents <= 2^29)
      size_fits s             0 <= w,h <= i32::MAX                                                      *)
-From EG Require Import Base.Prelude Model.Geometry Model.Target Proofs.Geometry Proofs.Target.
+From EG Require Import Base.Prelude Model.Geometry Model.Target Model.TargetOk Proofs.Geometry Proofs.Target Proofs.TargetOk.
 
 (* ---- trait defaults: exactly the row-major points of the area paired with the colour stream ---------- *)
 Theorem C03_default_fill_contiguous_spec : forall bb area cs m p,
@@ -131,6 +131,16 @@ Theorem C03_stack_compose : forall st bb k,
   then free_paint (g_box (geo_of st bb)) (g_col (geo_of st bb)) c (shift (g_off (geo_of st bb)) m) q
   else m (padd q (g_off (geo_of st bb))).
 Proof. exact stack_compose. Qed.
+
+(* the same with input-level hypotheses only: parent box, adapter rectangles / offsets and the call have
+   |coordinates| <= 1024 and extents <= 1024, depth <= 64 (then every intermediate is in range, both parent kinds) *)
+Theorem C03_stack_compose_display_scale : forall st bb k c m q,
+  display_scale st bb c ->
+  paint_all bb k (lower st bb c) m (padd q (g_off (geo_of st bb))) =
+  if g_vis (geo_of st bb) q
+  then free_paint (g_box (geo_of st bb)) (g_col (geo_of st bb)) c (shift (g_off (geo_of st bb)) m) q
+  else m (padd q (g_off (geo_of st bb))).
+Proof. exact stack_compose_display_scale. Qed.
 
 (* whole histories of calls *)
 Theorem C03_stack_history : forall st bb k ops,
